@@ -51,7 +51,7 @@ def required(tier):
           'zero-burn:yes', 'zero-burn:no', 'stratospheric:yes', 'stratospheric:no',
           'length:2', 'apu:none', 'apu:zero-fuel', 'apu:normal', 'lifecycle:on',
           'lifecycle:off', 'class:wide', 'class:narrow', 'class:small', 'class:freight',
-          'fuel:jetA', 'fuel:random', 'outcome:balanced', 'contract:evaluated', 'workload:repository-tests-under-contract']
+          'fuel:jetA', 'fuel:random', 'outcome:balanced', 'earlier-inventory:still-balanced', 'contract:evaluated', 'workload:repository-tests-under-contract']
     return {'classes': cl, 'counters': {'contract_evaluations': 1000}, 'evaluations': 1000}
 
 
@@ -87,6 +87,7 @@ def run_shard(spec, rec):
     E.compute_emissions = wrapped
     try:
         sink = io.StringIO()
+        previous = None
         ks = [spec['only']] if 'only' in spec else range(spec['n'])
         for k in ks:
             rng = random.Random(f"{spec['seed']}-{k}")
@@ -102,7 +103,7 @@ def run_shard(spec, rec):
             rec.ev()
             try:
                 with contextlib.redirect_stdout(sink):
-                    E.compute_emissions(pm, fuel, traj)
+                    em_now = E.compute_emissions(pm, fuel, traj)
             except Exception as e:  # noqa: BLE001
                 if emis.classify_exception(e, cfg) == 'named-refusal':
                     rec.cls('outcome:refused-by-name')
@@ -119,6 +120,20 @@ def run_shard(spec, rec):
                               case)
                 continue
             rec.cls('contract:evaluated')
+            # the inventory returned by the PREVIOUS call must still balance (results are values,
+            # not views on shared state that later calls rewrite)
+            if previous is not None:
+                rec.ev()
+                p_em, p_pm, p_fuel, p_traj, p_cfg, p_case = previous
+                stale = emis.check_inventory(p_em, p_pm, p_fuel, p_traj, p_cfg)
+                if stale:
+                    mech, det = stale[0]
+                    rec.violation('an inventory returned earlier no longer balances after a later '
+                                  'computation: ' + mech, {**det, 'earlier_config': p_cfg,
+                                                           'later_config': cfg}, p_case)
+                else:
+                    rec.cls('earlier-inventory:still-balanced')
+            previous = (em_now, pm, fuel, traj, dict(cfg), case)
             probs = state['problems']
             if probs is None:
                 rec.inconc('postcondition was not evaluated')
